@@ -105,7 +105,11 @@ def main(drv):
             bad.append("lemma REFUTED: " + name)
     # 4. cross-solver: the whole solver dialogue of one worker is replayed on the other solvers
     import os, tempfile
-    for pkg, entry, params in (("v2", "VerifC04Pair", {"N": 1}), ("v2", "VerifC01Flat", {"N": 2}), ("v2", "VerifC03Hunk", {"N": 2})):
+    import os as _os
+    crosslist = (("v2", "VerifC04Pair", {"N": 1}), ("v2", "VerifC01Flat", {"N": 2}), ("v2", "VerifC03Hunk", {"N": 2}))
+    if _os.environ.get("VERIF_SELFTEST_FAST"):
+        crosslist = ()
+    for pkg, entry, params in crosslist:
         with tempfile.TemporaryDirectory(prefix="verif_") as td:
             logp = os.path.join(td, "dialogue.smt2")
             res, err = drv.run_engine(pkg, [entry], params, {"hash.alias"}, 1, 0, 900, workers=1, extra=["-solverlog", logp])
